@@ -192,6 +192,13 @@ theorem startExec_loop_eq (cfg : Cfg) (s : State o) (c c' : Nat)
   split at h <;> simp at h
   exact h.symm
 
+theorem startExec_calls_self (cfg : Cfg) (s : State o) (c : Nat) :
+    (startExec cfg s c).calls c = { s.calls c with stage := .executing } := by
+  simp only [startExec]; split <;> simp [setStage]
+theorem startExec_calls_other (cfg : Cfg) (s : State o) (c c' : Nat) (h : c' ≠ c) :
+    (startExec cfg s c).calls c' = s.calls c' := by
+  simp only [startExec]; split <;> simp [setStage, upd_apply, h]
+
 theorem startExec_calls (cfg : Cfg) (s : State o) (c : Nat) :
     (startExec cfg s c).calls = (setStage s c .executing).calls := by
   simp only [startExec]; split <;> rfl
